@@ -75,4 +75,17 @@ let run_w inp obs : string option * string option =
        else (None, None)
      | [] -> (None, None))
   | _ -> (Some "unparsable C07W case", None)
+(* C07H: a path variable binding a field inside an HttpBody body: the captured value wins over the Content-Type header *)
+let run_h inp obs : string option * string option =
+  match inp, obs with
+  | ["C07H"; rd; capt; hdr; name], [ct; fn; status] ->
+    let what = Printf.sprintf "upload with /c07h/{file.content_type=*/*}/{filename}, capture %S, Content-Type header %S, first message read with %s"
+        (bytes_str (bytes_of_hex capt)) (bytes_str (bytes_of_hex hdr)) (if rd = "a" then "AsHTTPBodyReader" else "RecvMsg") in
+    if status = "panic" then (Some (what ^ ": the server panicked"), None)
+    else if ct = "-" then (None, None)       (* refused before the handler saw a message: not this property's subject *)
+    else if ct <> capt then (Some (Printf.sprintf "%s: the handler saw file.content_type %S" what (bytes_str (bytes_of_hex ct))), None)
+    else if fn <> name then (Some (Printf.sprintf "%s: the handler saw filename %S" what (bytes_str (bytes_of_hex fn))), None)
+    else (None, None)
+  | _ -> (Some "unparsable C07H case", None)
+let () = Evalreg.register "C07H" run_h
 let () = Evalreg.register "C07" run; Evalreg.register "C07X" run; Evalreg.register "C07W" run_w
